@@ -39,15 +39,22 @@ class _StubConn:
 
 
 class _StubFut:
-    def __init__(self, log):
+    """A waiting request.  Requests are answered in the order they were queued: the k-th response belongs to the k-th waiter."""
+
+    def __init__(self, log, idx=None, group=None):
         self.log = log
         self._done = False
+        self.idx, self.group = idx, group if group is not None else []
 
     def done(self):
         return self._done
 
     def set_result(self, resp):
         self._done = True
+        if self.idx is not None:
+            if self.idx != len(self.group):
+                self.log.append(("RESPONSE-HANDED-TO-THE-WRONG-WAITER", self.idx, len(self.group)))
+            self.group.append(self.idx)
         self.log.append(("HTTP", resp.code, tuple(resp.headers), bytes(resp.body)))
 
 
@@ -56,7 +63,8 @@ def make_proto(nfut=8):
 
     log = []
     p = InsecureHomeKitProtocol(_StubConn(log))
-    p.result_cbs = [_StubFut(log) for _ in range(nfut)]
+    group = []
+    p.result_cbs = type(p.result_cbs)(_StubFut(log, i, group) for i in range(nfut))
     p._vt_log = log
     return p
 
@@ -156,6 +164,11 @@ def corpus(tier, seed):
     for sep_ in ("", "\t", "   "):
         msgs.append(dict(kind="HTTP/1.1", code=200, reason="OK", headers=[ctype, ("X-Empty", "")], framing="cl", sep=sep_, body=b'{"a":1}'))
         msgs.append(dict(kind="EVENT/1.0", code=200, reason="OK", headers=[("X-Time", "12: 30"), ctype], framing="chunked", sep=sep_, body=b'{"a":1}', chunks=[3]))
+    # an empty reason phrase (legal: "HTTP/1.1 204 " + CRLF), a reason with a tab and with trailing blanks
+    msgs.append(dict(kind="HTTP/1.1", code=204, reason="", headers=[], framing="none"))
+    msgs.append(dict(kind="HTTP/1.1", code=200, reason="", headers=[ctype], framing="cl", body=b"ok"))
+    msgs.append(dict(kind="EVENT/1.0", code=200, reason="", headers=[ctype], framing="cl", body=BODIES[2]))
+    msgs.append(dict(kind="HTTP/1.1", code=200, reason="Fine\tand  dandy ", headers=[ctype], framing="cl", body=b"ok"))
     msgs.append(dict(kind="HTTP/1.1", code=200, reason="OK", headers=[], framing="chunked", body=b"", chunks=[1]))
     msgs.append(dict(kind="EVENT/1.0", code=200, reason="OK", headers=[ctype], framing="chunked", body=BODIES[2], chunks=[7]))
     singles = [[m] for m in msgs]
